@@ -1,16 +1,25 @@
 //! C16 — flatten / transform adapters commute with building; attributes interpolate in t.
 //!
-//! One builder program (`begin/line/quad/cubic/end` with `n` = 0..10 custom attributes, a
-//! tolerance and an affine map) is pushed through the REAL adapters; which ones depends on the
-//! family:
+//! One builder program (`n` = 0..10 custom attributes, a tolerance and an affine map) is pushed
+//! through the REAL adapters.  A program is a sequence of calls on a `PathBuilder`: the primitives
+//! `begin/line/quad/cubic/end` AND the PROVIDED methods of the trait - `close`, `path_event`,
+//! `event`, `add_polygon`, `add_point`, `add_line_segment`, `add_rectangle`,
+//! `add_rounded_rectangle`, `add_circle`, `add_ellipse` (`Cmd`; two thirds of the generated
+//! programs of EVERY family use them) - so each adapter and nesting also receives the helper
+//! calls, through the trait methods and, for `NoAttributes<_>` / `Path::builder()`, through the
+//! inherent methods of the same names.  The ORIGINAL path of a program is what a plain recording
+//! builder receives from the real default bodies (`expand`); every oracle clause compares a route
+//! with the adapter applied to that path.  Stored paths are also put together from separately
+//! built pieces with `extend_from_paths` (`Cut` marks, `build_path` / `adapter_path`).
+//! Which adapters run depends on the family:
 //!
 //! | family | routes (label: what is printed) |
 //! |---|---|
 //! | `wit`/`bf` | `builder::Flattened::new(Rec(n), tol)`: calls received by the recording builder |
 //! | `bt` | `builder::Transformed::new(Rec(n), m)` |
 //! | `bn` | `ft` `Rec.transformed(m).flattened(tol)` (flatten, then transform) / `tf` `Rec.flattened(tol).transformed(m)` |
-//! | `na` | `NoAttributes::wrap(Rec(0))` `.flattened(tol)` (`f`), `.transformed(m)` (`t`), `.transformed(m).flattened(tol)` (`ft`) driven through its `PathBuilder` impl with attributes |
-//! | `pb` | real paths: `Path::builder().flattened(tol)` → `iter` (`f`), `Path::builder_with_attributes(n).flattened(tol)` → `iter_with_attributes` (`fa`), `….transformed(m)` (`ta`) |
+//! | `na` | `NoAttributes::wrap(Rec(0))` `.flattened(tol)` (`f`), `.transformed(m)` (`t`), `.transformed(m).flattened(tol)` (`ft`) driven through its `PathBuilder` impl with attributes; `fi` / `ti` / `fti`: the same three driven through the INHERENT methods of `NoAttributes` (`add_rectangle(&rect, winding)` … forward to the wrapped adapter's provided method with `NO_ATTRIBUTES`) |
+//! | `pb` | real paths: `Path::builder().flattened(tol)` → `iter` (`f`, inherent methods), `Path::builder_with_attributes(n).flattened(tol)` → `iter_with_attributes` (`fa`), `….transformed(m)` (`ta`), `Path::builder().transformed(m)` → `iter` (`t`, inherent methods); with `Cut` marks every piece is built through an adapter instance of its own and the pieces are concatenated with `extend_from_paths` |
 //! | `it` | stored path: `path.iter().flattened(tol)` (`f`), `iter_with_attributes().for_each_flattened` (`a`) |
 //! | `ix` | `path.iter().transformed(&m)` (`t`), `path.clone().transformed(&m).iter_with_attributes()` (`s`) |
 //! | `in` | `path.iter().transformed(&m).flattened(tol)` (`tf`), `path.iter().flattened(tol).transformed(&m)` (`ft`) |
@@ -19,7 +28,17 @@
 //! | `e2ep` | `e2e` without the iterator route, on fixed programs incl. curves whose segment count does not fit `u32`: lyon_geom panics in `count.to_u32().unwrap()`; the model's `flatBuilderC` / `flatAttrIterC` are `none` there and print `panic` too (the outcome the theorems of `Props/C16b.lean` exclude by `… = some out`) |
 //!
 //! CASE  `n tol m11 m12 m21 m22 m31 m32 <prog>`; prog = `B x y a*n | L x y a*n | Q cx cy x y a*n |
-//!       C c1 c2 x y a*n | E 0/1`, then the ADVICE: for every curve a route will flatten (in the
+//!       C c1 c2 x y a*n | E 0/1` and the provided methods: `Z` close; `pb x y a*n | pl FROM x y a*n |
+//!       pq FROM cx cy x y a*n | pc FROM c1 c2 x y a*n | pe LAST FIRST 0/1 a*n` path_event (upper-case
+//!       words: fields of the event the builder must ignore); `eb x y a*n | el FROM a*n x y a*n |
+//!       eq FROM a*n cx cy x y a*n | ec FROM a*n c1 c2 x y a*n | ee LAST a*n FIRST a*n 0/1` event;
+//!       `PG k closed (x y)*k a*n` add_polygon; `PT x y a*n` add_point; `LS x y x y a*n`
+//!       add_line_segment; `RC min max w a*n` add_rectangle (`w` 1 = Winding::Positive);
+//!       `RR min max tl tr bl br w a*n` add_rounded_rectangle; `CI c r w a*n` add_circle;
+//!       `EL c rx ry rot w a*n` add_ellipse; `X` concatenation mark (no builder call).  The model
+//!       expands every helper to the primitive calls of its default body
+//!       (`Model/Path/AdaptersHelpers.lean`).
+//!       Then the ADVICE: for every curve a route will flatten (in the
 //!       space where it is flattened) what lyon_geom's flattener returns for it —
 //!       `| FQ/FC <control points> k (from to t)*k` (`for_each_flattened_with_t`) and
 //!       `| IQ/IC <control points> k (point)*k` (the `Flattened` iterators).  The curve flattener
@@ -34,11 +53,11 @@
 //!       flattener reported; transforms: builder side = iterator side = stored, bit for bit,
 //!       = `transform_point` of every position, attributes untouched.
 
-use lyon_path::builder::{Build, Flattened, NoAttributes, PathBuilder, Transformed};
-use lyon_path::geom::{CubicBezierSegment, QuadraticBezierSegment};
+use lyon_path::builder::{BorderRadii, Build, Flattened, NoAttributes, PathBuilder, Transformed};
+use lyon_path::geom::{CubicBezierSegment, LineSegment, QuadraticBezierSegment};
 use lyon_path::iterator::PathIterator;
-use lyon_path::math::{point, Point, Transform};
-use lyon_path::{Attributes, EndpointId, Event, Path, PathEvent};
+use lyon_path::math::{point, vector, Angle, Box2D, Point, Transform, Vector};
+use lyon_path::{Attributes, EndpointId, Event, Path, PathEvent, Polygon, Winding};
 use std::cell::RefCell;
 use std::rc::Rc;
 use vh::fl::Gen;
@@ -59,24 +78,163 @@ enum Op {
     E(bool),
 }
 
-fn drive<B: PathBuilder>(b: &mut B, prog: &[Op]) {
-    for op in prog {
-        match op {
-            Op::B(p, a) => {
-                b.begin(*p, a);
+fn prim<B: PathBuilder>(b: &mut B, op: &Op) {
+    match op {
+        Op::B(p, a) => {
+            b.begin(*p, a);
+        }
+        Op::L(p, a) => {
+            b.line_to(*p, a);
+        }
+        Op::Q(c, p, a) => {
+            b.quadratic_bezier_to(*c, *p, a);
+        }
+        Op::C(c1, c2, p, a) => {
+            b.cubic_bezier_to(*c1, *c2, *p, a);
+        }
+        Op::E(cl) => b.end(*cl),
+    }
+}
+
+/// One call of a builder program: a primitive or one of the PROVIDED methods of `PathBuilder`
+/// (`close`, `path_event`, `event`, `add_*`).  The provided methods have default bodies that call
+/// the builder's own primitives; an adapter that overrides one must still behave like its default
+/// body followed by the adapter (that is what "transforming / flattening while being built" means
+/// for a program that uses them).
+#[derive(Clone, Debug, PartialEq)]
+enum Cmd {
+    P(Op),
+    /// `close()`
+    Close,
+    /// `path_event(event, attributes)`: the primitive the event stands for, the two positions of
+    /// the event the builder does not use (`from` / `last`, `first`) and, for `End`, the unused
+    /// attributes
+    PathEv(Op, Point, Point, Vec<f32>),
+    /// `event(Event<(Point, Attributes), Point>)`: likewise, the unused endpoints with attributes
+    Ev(Op, AP, AP),
+    /// `add_polygon(Polygon { points, closed }, attributes)`
+    Poly(Vec<Point>, bool, Vec<f32>),
+    /// `add_point(at, attributes)`
+    Pt(Point, Vec<f32>),
+    /// `add_line_segment(&LineSegment { from, to }, attributes)`
+    Seg(Point, Point, Vec<f32>),
+    /// `add_rectangle(&Box2D { min, max }, winding (true = Positive), attributes)`
+    Rect(Point, Point, bool, Vec<f32>),
+    /// `add_rounded_rectangle(.., &BorderRadii { top_left, top_right, bottom_left, bottom_right }, ..)`
+    RRect(Point, Point, [f32; 4], bool, Vec<f32>),
+    /// `add_circle(center, radius, winding, attributes)`
+    Circle(Point, f32, bool, Vec<f32>),
+    /// `add_ellipse(center, radii, x_rotation, winding, attributes)`
+    Ellipse(Point, Vector, f32, bool, Vec<f32>),
+    /// not a builder call: where a stored path is put together from pieces with
+    /// `extend_from_paths` (see `build_path`)
+    Cut,
+}
+
+fn win(positive: bool) -> Winding {
+    if positive {
+        Winding::Positive
+    } else {
+        Winding::Negative
+    }
+}
+
+fn radii4(r: &[f32; 4]) -> BorderRadii {
+    BorderRadii { top_left: r[0], top_right: r[1], bottom_left: r[2], bottom_right: r[3] }
+}
+
+fn path_event_of(op: &Op, j1: Point, j2: Point) -> PathEvent {
+    match op {
+        Op::B(p, _) => PathEvent::Begin { at: *p },
+        Op::L(p, _) => PathEvent::Line { from: j1, to: *p },
+        Op::Q(c, p, _) => PathEvent::Quadratic { from: j1, ctrl: *c, to: *p },
+        Op::C(c1, c2, p, _) => PathEvent::Cubic { from: j1, ctrl1: *c1, ctrl2: *c2, to: *p },
+        Op::E(cl) => PathEvent::End { last: j1, first: j2, close: *cl },
+    }
+}
+
+fn event_of<'l>(op: &'l Op, j1: &'l AP, j2: &'l AP) -> Event<(Point, Attributes<'l>), Point> {
+    let f = (j1.0, &j1.1[..]);
+    match op {
+        Op::B(p, a) => Event::Begin { at: (*p, &a[..]) },
+        Op::L(p, a) => Event::Line { from: f, to: (*p, &a[..]) },
+        Op::Q(c, p, a) => Event::Quadratic { from: f, ctrl: *c, to: (*p, &a[..]) },
+        Op::C(c1, c2, p, a) => Event::Cubic { from: f, ctrl1: *c1, ctrl2: *c2, to: (*p, &a[..]) },
+        Op::E(cl) => Event::End { last: f, first: (j2.0, &j2.1[..]), close: *cl },
+    }
+}
+
+/// the program through the `PathBuilder` trait methods of `b` (provided methods included)
+fn drive<B: PathBuilder>(b: &mut B, prog: &[Cmd]) {
+    for c in prog {
+        match c {
+            Cmd::P(op) => prim(b, op),
+            Cmd::Close => b.close(),
+            Cmd::PathEv(op, j1, j2, a) => {
+                let at: &[f32] = match op {
+                    Op::B(_, x) | Op::L(_, x) | Op::Q(_, _, x) | Op::C(_, _, _, x) => &x[..],
+                    Op::E(_) => &a[..],
+                };
+                b.path_event(path_event_of(op, *j1, *j2), at)
             }
-            Op::L(p, a) => {
-                b.line_to(*p, a);
+            Cmd::Ev(op, j1, j2) => b.event(event_of(op, j1, j2)),
+            Cmd::Poly(pts, closed, a) => b.add_polygon(Polygon { points: &pts[..], closed: *closed }, a),
+            Cmd::Pt(p, a) => {
+                b.add_point(*p, a);
             }
-            Op::Q(c, p, a) => {
-                b.quadratic_bezier_to(*c, *p, a);
+            Cmd::Seg(p, q, a) => {
+                b.add_line_segment(&LineSegment { from: *p, to: *q }, a);
             }
-            Op::C(c1, c2, p, a) => {
-                b.cubic_bezier_to(*c1, *c2, *p, a);
-            }
-            Op::E(cl) => b.end(*cl),
+            Cmd::Rect(mn, mx, w, a) => b.add_rectangle(&Box2D { min: *mn, max: *mx }, win(*w), a),
+            Cmd::RRect(mn, mx, r, w, a) => b.add_rounded_rectangle(&Box2D { min: *mn, max: *mx }, &radii4(r), win(*w), a),
+            Cmd::Circle(c, r, w, a) => b.add_circle(*c, *r, win(*w), a),
+            Cmd::Ellipse(c, radii, rot, w, a) => b.add_ellipse(*c, *radii, Angle::radians(*rot), win(*w), a),
+            Cmd::Cut => {}
         }
     }
+}
+
+/// the program through the INHERENT methods of `NoAttributes<B>` (what `Path::builder()` and its
+/// `.flattened(..)` / `.transformed(..)` offer: no attribute arguments; each forwards to the
+/// wrapped builder's method of the same name with `NO_ATTRIBUTES`).  `event` has no inherent
+/// counterpart: it goes through the trait.
+fn drive_na<B: PathBuilder>(b: &mut NoAttributes<B>, prog: &[Cmd]) {
+    for c in prog {
+        match c {
+            Cmd::P(Op::B(p, _)) => {
+                b.begin(*p);
+            }
+            Cmd::P(Op::L(p, _)) => {
+                b.line_to(*p);
+            }
+            Cmd::P(Op::Q(c, p, _)) => {
+                b.quadratic_bezier_to(*c, *p);
+            }
+            Cmd::P(Op::C(c1, c2, p, _)) => {
+                b.cubic_bezier_to(*c1, *c2, *p);
+            }
+            Cmd::P(Op::E(cl)) => b.end(*cl),
+            Cmd::Close => b.close(),
+            Cmd::PathEv(op, j1, j2, _) => b.path_event(path_event_of(op, *j1, *j2)),
+            Cmd::Ev(op, j1, j2) => PathBuilder::event(b, event_of(op, j1, j2)),
+            Cmd::Poly(pts, closed, _) => b.add_polygon(Polygon { points: &pts[..], closed: *closed }),
+            Cmd::Pt(p, _) => {
+                b.add_point(*p);
+            }
+            Cmd::Seg(p, q, _) => {
+                b.add_line_segment(&LineSegment { from: *p, to: *q });
+            }
+            Cmd::Rect(mn, mx, w, _) => b.add_rectangle(&Box2D { min: *mn, max: *mx }, win(*w)),
+            Cmd::RRect(mn, mx, r, w, _) => b.add_rounded_rectangle(&Box2D { min: *mn, max: *mx }, &radii4(r), win(*w)),
+            Cmd::Circle(c, r, w, _) => b.add_circle(*c, *r, win(*w)),
+            Cmd::Ellipse(c, radii, rot, w, _) => b.add_ellipse(*c, *radii, Angle::radians(*rot), win(*w)),
+            Cmd::Cut => {}
+        }
+    }
+}
+
+fn prims(prog: &[Op]) -> Vec<Cmd> {
+    prog.iter().cloned().map(Cmd::P).collect()
 }
 
 fn map_prog(prog: &[Op], f: &dyn Fn(Point) -> Point) -> Vec<Op> {
@@ -109,27 +267,133 @@ fn put_attrs(o: &mut Out, a: &[f32]) {
     }
 }
 
+fn put_op(o: &mut Out, op: &Op) {
+    match op {
+        Op::B(p, a) => {
+            o.t("B").p(*p);
+            put_attrs(o, a);
+        }
+        Op::L(p, a) => {
+            o.t("L").p(*p);
+            put_attrs(o, a);
+        }
+        Op::Q(c, p, a) => {
+            o.t("Q").p(*c).p(*p);
+            put_attrs(o, a);
+        }
+        Op::C(c1, c2, p, a) => {
+            o.t("C").p(*c1).p(*c2).p(*p);
+            put_attrs(o, a);
+        }
+        Op::E(cl) => {
+            o.t("E").b(*cl);
+        }
+    }
+}
+
 fn put_prog(o: &mut Out, prog: &[Op]) {
     for op in prog {
-        match op {
-            Op::B(p, a) => {
-                o.t("B").p(*p);
+        put_op(o, op);
+    }
+}
+
+/// CASE form of a program with helper calls (see the header)
+fn put_cmds(o: &mut Out, prog: &[Cmd]) {
+    for c in prog {
+        match c {
+            Cmd::P(op) => put_op(o, op),
+            Cmd::Close => {
+                o.t("Z");
+            }
+            Cmd::PathEv(op, j1, j2, ea) => match op {
+                Op::B(p, a) => {
+                    o.t("pb").p(*p);
+                    put_attrs(o, a);
+                }
+                Op::L(p, a) => {
+                    o.t("pl").p(*j1).p(*p);
+                    put_attrs(o, a);
+                }
+                Op::Q(c, p, a) => {
+                    o.t("pq").p(*j1).p(*c).p(*p);
+                    put_attrs(o, a);
+                }
+                Op::C(c1, c2, p, a) => {
+                    o.t("pc").p(*j1).p(*c1).p(*c2).p(*p);
+                    put_attrs(o, a);
+                }
+                Op::E(cl) => {
+                    o.t("pe").p(*j1).p(*j2).b(*cl);
+                    put_attrs(o, ea);
+                }
+            },
+            Cmd::Ev(op, j1, j2) => match op {
+                Op::B(p, a) => {
+                    o.t("eb").p(*p);
+                    put_attrs(o, a);
+                }
+                Op::L(p, a) => {
+                    o.t("el");
+                    put_ap(o, j1);
+                    o.p(*p);
+                    put_attrs(o, a);
+                }
+                Op::Q(c, p, a) => {
+                    o.t("eq");
+                    put_ap(o, j1);
+                    o.p(*c).p(*p);
+                    put_attrs(o, a);
+                }
+                Op::C(c1, c2, p, a) => {
+                    o.t("ec");
+                    put_ap(o, j1);
+                    o.p(*c1).p(*c2).p(*p);
+                    put_attrs(o, a);
+                }
+                Op::E(cl) => {
+                    o.t("ee");
+                    put_ap(o, j1);
+                    put_ap(o, j2);
+                    o.b(*cl);
+                }
+            },
+            Cmd::Poly(pts, closed, a) => {
+                o.t("PG").u(pts.len() as u64).b(*closed);
+                for p in pts {
+                    o.p(*p);
+                }
                 put_attrs(o, a);
             }
-            Op::L(p, a) => {
-                o.t("L").p(*p);
+            Cmd::Pt(p, a) => {
+                o.t("PT").p(*p);
                 put_attrs(o, a);
             }
-            Op::Q(c, p, a) => {
-                o.t("Q").p(*c).p(*p);
+            Cmd::Seg(p, q, a) => {
+                o.t("LS").p(*p).p(*q);
                 put_attrs(o, a);
             }
-            Op::C(c1, c2, p, a) => {
-                o.t("C").p(*c1).p(*c2).p(*p);
+            Cmd::Rect(mn, mx, w, a) => {
+                o.t("RC").p(*mn).p(*mx).b(*w);
                 put_attrs(o, a);
             }
-            Op::E(cl) => {
-                o.t("E").b(*cl);
+            Cmd::RRect(mn, mx, r, w, a) => {
+                o.t("RR").p(*mn).p(*mx);
+                for x in r {
+                    o.f(*x);
+                }
+                o.b(*w);
+                put_attrs(o, a);
+            }
+            Cmd::Circle(c, r, w, a) => {
+                o.t("CI").p(*c).f(*r).b(*w);
+                put_attrs(o, a);
+            }
+            Cmd::Ellipse(c, radii, rot, w, a) => {
+                o.t("EL").p(*c).v(*radii).f(*rot).b(*w);
+                put_attrs(o, a);
+            }
+            Cmd::Cut => {
+                o.t("X");
             }
         }
     }
@@ -697,8 +961,24 @@ struct Input {
     n: usize,
     tol: f32,
     m: Transform,
+    /// the builder program: primitives and provided helper methods
+    cmds: Vec<Cmd>,
+    /// what a builder WITHOUT any adapter receives for it (the real default bodies of the provided
+    /// methods, run on the recording builder): the "original path" of the property
     prog: Vec<Op>,
     tag: String,
+}
+
+impl Input {
+    fn new(n: usize, tol: f32, m: Transform, cmds: Vec<Cmd>, tag: String) -> Input {
+        let prog = expand(n, &cmds);
+        Input { n, tol, m, cmds, prog, tag }
+    }
+}
+
+/// the primitive calls a plain builder receives for a program with helper calls
+fn expand(n: usize, cmds: &[Cmd]) -> Vec<Op> {
+    vh::guarded(|| rec_run(|r| r, n, cmds)).unwrap_or_default()
 }
 
 fn gen_tol(rng: &mut Rng, lattice: bool) -> f32 {
@@ -766,6 +1046,93 @@ fn gen_attrs(rng: &mut Rng, n: usize, lattice: bool) -> Vec<f32> {
         .collect()
 }
 
+/// one `add_*` helper call
+fn gen_shape(rng: &mut Rng, g: Gen, n: usize, lattice: bool, pt: &dyn Fn(&mut Rng) -> Point) -> (Cmd, &'static str) {
+    let a = gen_attrs(rng, n, lattice);
+    let w = rng.chance(1, 2);
+    // a length: radius / size / corner radius
+    let len = |rng: &mut Rng, hi: f64| -> f32 {
+        match rng.below(8) {
+            0 => 0.0,
+            1 => -(rng.range(1, 16) as f32) / 4.0,
+            _ => {
+                if lattice {
+                    rng.range(1, (hi * 4.0) as i64) as f32 / 4.0
+                } else if g == Gen::Wide {
+                    rng.log_uniform(-2.0, hi.log10()).abs() as f32
+                } else {
+                    rng.uniform(0.0, hi) as f32
+                }
+            }
+        }
+    };
+    let bx = |rng: &mut Rng| -> (Point, Point) {
+        let mn = pt(rng);
+        // mostly a proper box, sometimes min / max in any order (negative width / height)
+        if rng.chance(1, 5) {
+            (mn, pt(rng))
+        } else {
+            (mn, point(mn.x + len(rng, 40.0), mn.y + len(rng, 40.0)))
+        }
+    };
+    match rng.below(9) {
+        0 => {
+            let k = rng.below(6) as usize;
+            let mut pts: Vec<Point> = (0..k).map(|_| pt(rng)).collect();
+            if g == Gen::Degenerate && k >= 2 && rng.chance(1, 2) {
+                pts[k - 1] = pts[0];
+            }
+            (Cmd::Poly(pts, rng.chance(1, 2), a), if k == 0 { "polygon0" } else { "polygon" })
+        }
+        1 => (Cmd::Pt(pt(rng), a), "point"),
+        2 => {
+            let p = pt(rng);
+            let q = if g == Gen::Degenerate && rng.chance(1, 3) { p } else { pt(rng) };
+            (Cmd::Seg(p, q, a), "segment")
+        }
+        3 | 4 => {
+            let (mn, mx) = bx(rng);
+            (Cmd::Rect(mn, mx, w, a), "rect")
+        }
+        5 | 6 => {
+            let (mn, mx) = bx(rng);
+            let r0 = len(rng, 12.0);
+            let r = if rng.chance(1, 2) { [r0; 4] } else { [r0, len(rng, 12.0), len(rng, 12.0), len(rng, 12.0)] };
+            (Cmd::RRect(mn, mx, r, w, a), "rrect")
+        }
+        7 => (Cmd::Circle(pt(rng), len(rng, 50.0), w, a), "circle"),
+        _ => {
+            let rot = match rng.below(5) {
+                0 => 0.0,
+                1 => *rng.pick(&[std::f32::consts::FRAC_PI_2, std::f32::consts::PI, -std::f32::consts::FRAC_PI_4, 100.0]),
+                _ => rng.uniform(-7.0, 7.0) as f32,
+            };
+            (Cmd::Ellipse(pt(rng), vector(len(rng, 30.0), len(rng, 30.0)), rot, w, a), "ellipse")
+        }
+    }
+}
+
+/// a primitive call, as itself or through `path_event` / `event` / `close`
+fn gen_call(rng: &mut Rng, n: usize, lattice: bool, pt: &dyn Fn(&mut Rng) -> Point, op: Op, via: &mut [bool; 3]) -> Cmd {
+    match rng.below(10) {
+        0 => {
+            via[0] = true;
+            Cmd::PathEv(op, pt(rng), pt(rng), gen_attrs(rng, n, lattice))
+        }
+        1 => {
+            via[1] = true;
+            let j1 = (pt(rng), gen_attrs(rng, n, lattice));
+            let j2 = (pt(rng), gen_attrs(rng, n, lattice));
+            Cmd::Ev(op, j1, j2)
+        }
+        2 | 3 | 4 if op == Op::E(true) => {
+            via[2] = true;
+            Cmd::Close
+        }
+        _ => Cmd::P(op),
+    }
+}
+
 fn gen_input(rng: &mut Rng) -> Input {
     let g = match rng.below(10) {
         0..=2 => Gen::Lattice,
@@ -779,7 +1146,7 @@ fn gen_input(rng: &mut Rng) -> Input {
     let n = *rng.pick(&[0usize, 1, 2, 3, 4, 5, 6, 7, 8, 8, 9, 9, 10, 1, 3, 5, 7, 8]);
     let tol = gen_tol(rng, lattice);
     let (m, mname) = gen_xf(rng, lattice);
-    let pt = |rng: &mut Rng| -> Point {
+    let pt = move |rng: &mut Rng| -> Point {
         if g == Gen::Wide {
             // keep the segment counts moderate: magnitudes 1e-2 .. 1e3
             point(rng.log_uniform(-2.0, 3.0) as f32, rng.log_uniform(-2.0, 3.0) as f32)
@@ -787,13 +1154,45 @@ fn gen_input(rng: &mut Rng) -> Input {
             g.point::<f32>(rng)
         }
     };
-    let mut prog = vec![];
+    // the dimension "which entry point of the builder": a third of the programs use only the
+    // five primitives; in the others every sub-path may instead be an `add_*` helper call and
+    // every primitive may go through `path_event` / `event` / `close`
+    let helpers = !rng.chance(1, 3);
+    let mut cmds = vec![];
     let subs = 1 + rng.below(3);
     let mut curves = 0;
     let mut first_curve = false;
-    for _ in 0..subs {
+    let mut shapes: Vec<&'static str> = vec![];
+    let mut via = [false; 3];
+    let cuts = rng.chance(1, 5);
+    for si in 0..subs {
+        if si > 0 && cuts && rng.chance(2, 3) {
+            cmds.push(Cmd::Cut);
+            if rng.chance(1, 4) {
+                cmds.push(Cmd::Cut); // empty piece: back to direct calls on the final builder
+            }
+        }
+        if helpers && rng.chance(2, 5) {
+            let (c, name) = gen_shape(rng, g, n, lattice, &pt);
+            if matches!(name, "rrect" | "circle" | "ellipse") {
+                curves += 1;
+            }
+            if !shapes.contains(&name) {
+                shapes.push(name);
+            }
+            cmds.push(c);
+            continue;
+        }
+        let mut call = |rng: &mut Rng, op: Op, via: &mut [bool; 3]| -> Cmd {
+            if helpers {
+                gen_call(rng, n, lattice, &pt, op, via)
+            } else {
+                Cmd::P(op)
+            }
+        };
         let start = pt(rng);
-        prog.push(Op::B(start, gen_attrs(rng, n, lattice)));
+        let a0 = gen_attrs(rng, n, lattice);
+        cmds.push(call(rng, Op::B(start, a0), &mut via));
         let edges = rng.below(5);
         let mut cur = start;
         for e in 0..edges {
@@ -803,17 +1202,18 @@ fn gen_input(rng: &mut Rng) -> Input {
             if g == Gen::Degenerate && rng.chance(1, 4) {
                 to = cur; // closed curve / zero-length line
             }
-            match kind {
-                0 => prog.push(Op::L(to, a)),
+            let op = match kind {
+                0 => Op::L(to, a),
                 1 => {
                     let c = if g == Gen::Degenerate && rng.chance(1, 3) { cur } else { c1 };
-                    prog.push(Op::Q(c, to, a));
+                    Op::Q(c, to, a)
                 }
                 _ => {
                     let (k1, k2) = if g == Gen::Degenerate && rng.chance(1, 3) { (cur, to) } else { (c1, c2) };
-                    prog.push(Op::C(k1, k2, to, a));
+                    Op::C(k1, k2, to, a)
                 }
-            }
+            };
+            cmds.push(call(rng, op, &mut via));
             if kind != 0 {
                 curves += 1;
                 if e == 0 {
@@ -822,18 +1222,28 @@ fn gen_input(rng: &mut Rng) -> Input {
             }
             cur = to;
         }
-        prog.push(Op::E(rng.chance(1, 2)));
+        let cl = rng.chance(1, 2);
+        cmds.push(call(rng, Op::E(cl), &mut via));
+    }
+    shapes.sort();
+    let mut entry: Vec<&str> = shapes.clone();
+    for (k, name) in ["path_event", "event", "close"].iter().enumerate() {
+        if via[k] {
+            entry.push(name);
+        }
     }
     let tag = format!(
-        "{} n{} {} subs{} {}{}",
+        "{} n{} {} subs{} {}{} {}{}",
         g.name(),
         n,
         mname,
         subs,
         if curves == 0 { "no-curve trivial" } else { "curves" },
-        if first_curve && n > 0 { " first-curve-after-begin" } else { "" }
+        if first_curve && n > 0 { " first-curve-after-begin" } else { "" },
+        if entry.is_empty() { "primitives-only".to_string() } else { format!("via:{}", entry.join("+")) },
+        if cmds.contains(&Cmd::Cut) { " concatenated" } else { "" }
     );
-    Input { n, tol, m, prog, tag }
+    Input::new(n, tol, m, cmds, tag)
 }
 
 fn put_input(inp: &Input) -> Out {
@@ -841,7 +1251,7 @@ fn put_input(inp: &Input) -> Out {
     a.u(inp.n as u64).f(inp.tol);
     let m = &inp.m;
     a.f(m.m11).f(m.m12).f(m.m21).f(m.m22).f(m.m31).f(m.m32);
-    put_prog(&mut a, &inp.prog);
+    put_cmds(&mut a, &inp.cmds);
     a
 }
 
@@ -923,7 +1333,7 @@ fn put_advice(o: &mut Out, fam: &str, inp: &Input) {
 // ---------------------------------------------------------------------------------------------
 // routes
 
-fn rec_run<W: PathBuilder>(wrap: impl FnOnce(Rec) -> W, n: usize, prog: &[Op]) -> Vec<Op> {
+fn rec_run<W: PathBuilder>(wrap: impl FnOnce(Rec) -> W, n: usize, prog: &[Cmd]) -> Vec<Op> {
     let (rec, log) = Rec::new(n);
     let mut b = wrap(rec);
     drive(&mut b, prog);
@@ -932,10 +1342,101 @@ fn rec_run<W: PathBuilder>(wrap: impl FnOnce(Rec) -> W, n: usize, prog: &[Op]) -
     v
 }
 
-fn build_path(n: usize, prog: &[Op]) -> Path {
-    let mut b = Path::builder_with_attributes(n);
-    drive(&mut b, prog);
-    b.build()
+/// the same through the inherent methods of `NoAttributes<_>`
+fn rec_run_na<W: PathBuilder>(wrap: impl FnOnce(Rec) -> NoAttributes<W>, prog: &[Cmd]) -> Vec<Op> {
+    let (rec, log) = Rec::new(0);
+    let mut b = wrap(rec);
+    drive_na(&mut b, prog);
+    drop(b);
+    let v = log.borrow().clone();
+    v
+}
+
+/// the pieces of a program between its `Cut` marks, for path concatenation: `(piece, direct)`;
+/// piece 0 is always direct; a piece after a `Cut` is built as a path of its own; an EMPTY piece
+/// means "the next piece is direct again"
+fn pieces(prog: &[Cmd]) -> Vec<(&[Cmd], bool)> {
+    let mut v = vec![];
+    let mut direct = true;
+    for (i, p) in prog.split(|c| *c == Cmd::Cut).enumerate() {
+        if i > 0 && p.is_empty() {
+            direct = true;
+            continue;
+        }
+        v.push((p, i == 0 || direct));
+        direct = false;
+    }
+    v
+}
+
+/// A stored path for the program.  Without `Cut` marks: the program driven into
+/// `Path::builder_with_attributes(n)`.  With them: the direct pieces are driven into that
+/// builder, every other piece is built as a `Path` of its own (by `make`) and runs of such paths
+/// are appended with ONE `extend_from_paths` call each - "stored" includes stored by concatenation.
+fn concat_path(n: usize, prog: &[Cmd], make: &dyn Fn(&[Cmd]) -> Path, direct_too: bool) -> Path {
+    // the final builder: `Path::builder_with_attributes(n)`, or - without attributes, for half
+    // of the programs - `Path::builder()` (`NoAttributes<BuilderImpl>` has an
+    // `extend_from_paths` of its own)
+    let mut b = if n == 0 && prog.len() % 2 == 0 { Fin::N(Path::builder()) } else { Fin::A(Path::builder_with_attributes(n)) };
+    let mut pending: Vec<Path> = vec![];
+    let flush = |b: &mut Fin, pending: &mut Vec<Path>| {
+        if !pending.is_empty() {
+            let slices: Vec<_> = pending.iter().map(|p| p.as_slice()).collect();
+            match b {
+                Fin::A(b) => b.extend_from_paths(&slices),
+                Fin::N(b) => b.extend_from_paths(&slices),
+            }
+            pending.clear();
+        }
+    };
+    for (p, direct) in pieces(prog) {
+        if direct && direct_too {
+            flush(&mut b, &mut pending);
+            match &mut b {
+                Fin::A(b) => drive(b, p),
+                Fin::N(b) => drive_na(b, p),
+            }
+        } else {
+            pending.push(make(p));
+        }
+    }
+    flush(&mut b, &mut pending);
+    match b {
+        Fin::A(b) => b.build(),
+        Fin::N(b) => b.build(),
+    }
+}
+
+enum Fin {
+    A(lyon_path::path::BuilderWithAttributes),
+    N(lyon_path::path::Builder),
+}
+
+fn build_path(n: usize, prog: &[Cmd]) -> Path {
+    if !prog.contains(&Cmd::Cut) {
+        let mut b = Path::builder_with_attributes(n);
+        drive(&mut b, prog);
+        return b.build();
+    }
+    concat_path(
+        n,
+        prog,
+        &|p| {
+            let mut b = Path::builder_with_attributes(n);
+            drive(&mut b, p);
+            b.build()
+        },
+        true,
+    )
+}
+
+/// a path built THROUGH a builder-side adapter (`make` builds one piece through a fresh adapter
+/// instance); with `Cut` marks every piece is built separately and the results are concatenated
+fn adapter_path(n: usize, prog: &[Cmd], make: &dyn Fn(&[Cmd]) -> Path) -> Path {
+    if !prog.contains(&Cmd::Cut) {
+        return make(prog);
+    }
+    concat_path(n, prog, make, false)
 }
 
 fn evs_with_attrs(p: &Path) -> Vec<Ev> {
@@ -967,7 +1468,7 @@ fn ev_xf(orc: &mut Oracle, site: &str, prog: &[Op], m: &Transform, evs: &[Ev]) {
 }
 
 fn run_family(fam: &str, inp: &Input) -> CaseOut {
-    let (n, tol, m, prog) = (inp.n, inp.tol, inp.m, &inp.prog[..]);
+    let (n, tol, m, prog, cmds) = (inp.n, inp.tol, inp.m, &inp.prog[..], &inp.cmds[..]);
     let mut o = Out::new();
     let mut orc = Oracle::new();
     let mut def = Deferred(vec![]);
@@ -979,20 +1480,20 @@ fn run_family(fam: &str, inp: &Input) -> CaseOut {
     };
     match fam {
         "wit" | "bf" => {
-            let calls = rec_run(|r| Flattened::new(r, tol), n, prog);
+            let calls = rec_run(|r| Flattened::new(r, tol), n, cmds);
             put_prog(&mut o, &calls);
             nested(&mut orc, "builder.flatten", &calls);
             check_flat(&mut orc, &mut def, "builder.flatten", Kind::Builder, prog, tol, &id, true, &calls);
         }
         "bt" => {
-            let calls = rec_run(|r| Transformed::new(r, m), n, prog);
+            let calls = rec_run(|r| Transformed::new(r, m), n, cmds);
             put_prog(&mut o, &calls);
             nested(&mut orc, "builder.transform", &calls);
             check_xf(&mut orc, "builder.transform", prog, &m, &calls);
         }
         "bn" => {
-            let ft = rec_run(|r| r.transformed(m).flattened(tol), n, prog);
-            let tf = rec_run(|r| r.flattened(tol).transformed(m), n, prog);
+            let ft = rec_run(|r| r.transformed(m).flattened(tol), n, cmds);
+            let tf = rec_run(|r| r.flattened(tol).transformed(m), n, cmds);
             o.t("ft");
             put_prog(&mut o, &ft);
             o.t("tf");
@@ -1006,8 +1507,8 @@ fn run_family(fam: &str, inp: &Input) -> CaseOut {
             // m is an exact similarity of scale s (see gen_sim): flattening in the target space at
             // s*tol must give the transformed flattening of the source space at tol, call for call
             let s = m.m11.abs() + m.m12.abs();
-            let ft = rec_run(|r| r.transformed(m).flattened(tol), n, prog);
-            let tf = rec_run(|r| r.flattened(s * tol).transformed(m), n, prog);
+            let ft = rec_run(|r| r.transformed(m).flattened(tol), n, cmds);
+            let tf = rec_run(|r| r.flattened(s * tol).transformed(m), n, cmds);
             o.t("ft");
             put_prog(&mut o, &ft);
             o.t("tf");
@@ -1024,9 +1525,9 @@ fn run_family(fam: &str, inp: &Input) -> CaseOut {
             }
         }
         "na" => {
-            let f = rec_run(|r| NoAttributes::wrap(r).flattened(tol), 0, prog);
-            let t = rec_run(|r| NoAttributes::wrap(r).transformed(m), 0, prog);
-            let ft = rec_run(|r| NoAttributes::wrap(r).transformed(m).flattened(tol), 0, prog);
+            let f = rec_run(|r| NoAttributes::wrap(r).flattened(tol), 0, cmds);
+            let t = rec_run(|r| NoAttributes::wrap(r).transformed(m), 0, cmds);
+            let ft = rec_run(|r| NoAttributes::wrap(r).transformed(m).flattened(tol), 0, cmds);
             o.t("f");
             put_prog(&mut o, &f);
             o.t("t");
@@ -1037,30 +1538,61 @@ fn run_family(fam: &str, inp: &Input) -> CaseOut {
             check_flat(&mut orc, &mut def, "builder.flatten", Kind::Builder, prog, tol, &id, false, &f);
             check_xf(&mut orc, "builder.transform", &strip_attrs(prog), &m, &t);
             check_flat(&mut orc, &mut def, "builder.flatten", Kind::Builder, prog, tol, &xf, false, &ft);
+            // the same three through the INHERENT methods of NoAttributes (`add_rectangle(&rect, winding)`
+            // forwards to the wrapped adapter's provided `add_rectangle(.., NO_ATTRIBUTES)`)
+            let fi = rec_run_na(|r| NoAttributes::wrap(r).flattened(tol), cmds);
+            let ti = rec_run_na(|r| NoAttributes::wrap(r).transformed(m), cmds);
+            let fti = rec_run_na(|r| NoAttributes::wrap(r).transformed(m).flattened(tol), cmds);
+            o.t("fi");
+            put_prog(&mut o, &fi);
+            o.t("ti");
+            put_prog(&mut o, &ti);
+            o.t("fti");
+            put_prog(&mut o, &fti);
+            nested(&mut orc, "builder.flatten", &fi);
+            check_flat(&mut orc, &mut def, "builder.flatten", Kind::Builder, prog, tol, &id, false, &fi);
+            check_xf(&mut orc, "builder.transform", &strip_attrs(prog), &m, &ti);
+            check_flat(&mut orc, &mut def, "builder.flatten", Kind::Builder, prog, tol, &xf, false, &fti);
         }
         "pb" => {
-            let mut b = Path::builder().flattened(tol);
-            drive(&mut b, prog);
-            let pf: Path = b.build();
+            // `Path::builder()` is a NoAttributes<_>: its inherent methods (what a user calls)
+            let pf = adapter_path(0, cmds, &|p| {
+                let mut b = Path::builder().flattened(tol);
+                drive_na(&mut b, p);
+                b.build()
+            });
             let f: Vec<Ev> = pf.iter().map(ev_plain).collect();
-            let mut b = Path::builder_with_attributes(n).flattened(tol);
-            drive(&mut b, prog);
-            let fa = evs_with_attrs(&b.build());
-            let mut b = Path::builder_with_attributes(n).transformed(m);
-            drive(&mut b, prog);
-            let ta = evs_with_attrs(&b.build());
+            let pt = adapter_path(0, cmds, &|p| {
+                let mut b = Path::builder().transformed(m);
+                drive_na(&mut b, p);
+                b.build()
+            });
+            let t: Vec<Ev> = pt.iter().map(ev_plain).collect();
+            let fa = evs_with_attrs(&adapter_path(n, cmds, &|p| {
+                let mut b = Path::builder_with_attributes(n).flattened(tol);
+                drive(&mut b, p);
+                b.build()
+            }));
+            let ta = evs_with_attrs(&adapter_path(n, cmds, &|p| {
+                let mut b = Path::builder_with_attributes(n).transformed(m);
+                drive(&mut b, p);
+                b.build()
+            }));
             o.t("f");
             put_evs(&mut o, &f);
             o.t("fa");
             put_evs(&mut o, &fa);
             o.t("ta");
             put_evs(&mut o, &ta);
+            o.t("t");
+            put_evs(&mut o, &t);
+            ev_xf(&mut orc, "builder.transform", &strip_attrs(prog), &m, &t);
             ev_flat(&mut orc, &mut def, "builder.flatten", Kind::Builder, prog, tol, &id, false, &f);
             ev_flat(&mut orc, &mut def, "builder.flatten", Kind::Builder, prog, tol, &id, true, &fa);
             ev_xf(&mut orc, "builder.transform", prog, &m, &ta);
         }
         "it" => {
-            let path = build_path(n, prog);
+            let path = build_path(n, cmds);
             let f: Vec<Ev> = path.iter().flattened(tol).map(ev_plain).collect();
             let mut a: Vec<Ev> = vec![];
             path.iter_with_attributes().for_each_flattened(tol, &mut |e| a.push(ev_attr(e)));
@@ -1072,8 +1604,8 @@ fn run_family(fam: &str, inp: &Input) -> CaseOut {
             ev_flat(&mut orc, &mut def, "iter.flatten", Kind::Iter, prog, tol, &id, false, &f);
         }
         "e2e" => {
-            let calls = rec_run(|r| Flattened::new(r, tol), n, prog);
-            let path = build_path(n, prog);
+            let calls = rec_run(|r| Flattened::new(r, tol), n, cmds);
+            let path = build_path(n, cmds);
             let f: Vec<Ev> = path.iter().flattened(tol).map(ev_plain).collect();
             let mut a: Vec<Ev> = vec![];
             path.iter_with_attributes().for_each_flattened(tol, &mut |e| a.push(ev_attr(e)));
@@ -1092,8 +1624,8 @@ fn run_family(fam: &str, inp: &Input) -> CaseOut {
             // builder-side Flattened and for_each_flattened where "lyon_geom panics" is a modelled
             // outcome (`none` of flatBuilderC / flatAttrIterC in Model/Path/AdaptersConcrete.lean)
             let r = vh::guarded(|| {
-                let calls = rec_run(|r| Flattened::new(r, tol), n, prog);
-                let path = build_path(n, prog);
+                let calls = rec_run(|r| Flattened::new(r, tol), n, cmds);
+                let path = build_path(n, cmds);
                 let mut a: Vec<Ev> = vec![];
                 path.iter_with_attributes().for_each_flattened(tol, &mut |e| a.push(ev_attr(e)));
                 (calls, a)
@@ -1115,7 +1647,7 @@ fn run_family(fam: &str, inp: &Input) -> CaseOut {
             }
         }
         "ix" => {
-            let path = build_path(n, prog);
+            let path = build_path(n, cmds);
             let t: Vec<Ev> = path.iter().transformed(&m).map(ev_plain).collect();
             let stored = path.clone().transformed(&m);
             let s = evs_with_attrs(&stored);
@@ -1127,15 +1659,17 @@ fn run_family(fam: &str, inp: &Input) -> CaseOut {
             ev_xf(&mut orc, "iter.transform", &strip_attrs(prog), &m, &t);
             ev_xf(&mut orc, "stored.transform", prog, &m, &s);
             // builder side = iterator side = stored, bit for bit
-            let mut b = Path::builder_with_attributes(n).transformed(m);
-            drive(&mut b, prog);
-            let bp = b.build();
+            let bp = adapter_path(n, cmds, &|p| {
+                let mut b = Path::builder_with_attributes(n).transformed(m);
+                drive(&mut b, p);
+                b.build()
+            });
             let bside: Vec<Ev> = bp.iter().map(ev_plain).collect();
             orc.check(bside == t && sp == t, "transform/three-routes-agree", "generic", || format!("builder {:?} iterator {:?} stored {:?}", bside, t, sp));
             orc.check(evs_with_attrs(&bp) == s, "transform/three-routes-agree", "generic", || "builder-side and stored differ in attributes".to_string());
         }
         "in" => {
-            let path = build_path(n, prog);
+            let path = build_path(n, cmds);
             let tf: Vec<Ev> = path.iter().transformed(&m).flattened(tol).map(ev_plain).collect();
             let ft: Vec<Ev> = path.iter().flattened(tol).transformed(&m).map(ev_plain).collect();
             o.t("tf");
@@ -1216,7 +1750,7 @@ fn main() {
     }
     for (name, n, tol, prog) in wit {
         for fam in ["wit", "it", "pb"] {
-            let inp = Input { n, tol, m: Transform::new(2.0, 1.0, -1.0, 3.0, 5.0, -7.0), prog: prog.clone(), tag: format!("witness {}", name) };
+            let inp = Input::new(n, tol, Transform::new(2.0, 1.0, -1.0, 3.0, 5.0, -7.0), prims(&prog), format!("witness {}", name));
             emit(&mut ctx, fam, Some(inp));
         }
     }
@@ -1248,8 +1782,72 @@ fn main() {
         ("no-overflow small tolerance", 1, 1.0e-4, vec![Op::B(p(0., 0.), vec![1.]), Op::Q(p(5., 10.), p(10., 0.), vec![2.]), Op::C(p(12., 4.), p(16., -4.), p(20., 0.), vec![-3.]), Op::E(false)]),
     ];
     for (name, n, tol, prog) in pw {
-        let inp = Input { n, tol, m: Transform::identity(), prog, tag: format!("witness {}", name) };
+        let inp = Input::new(n, tol, Transform::identity(), prims(&prog), format!("witness {}", name));
         emit(&mut ctx, "e2ep", Some(inp));
+    }
+    // the provided methods of PathBuilder sent through the adapters, under maps with rotation /
+    // skew / mirroring (an adapter that handles a helper itself instead of letting its default
+    // body call the adapter's primitives is right only for special maps)
+    let box_ = |x0: f32, y0: f32, x1: f32, y1: f32| (p(x0, y0), p(x1, y1));
+    let hw: Vec<(&str, usize, Vec<Cmd>)> = vec![
+        ("helpers rectangles", 0, {
+            let (a, b) = box_(1., 2., 5., 4.);
+            let (c, d) = box_(-4., -8., -1., -6.);
+            vec![Cmd::Rect(a, b, true, vec![]), Cmd::Rect(c, d, false, vec![])]
+        }),
+        ("helpers every provided method", 2, {
+            let (a, b) = box_(1., 2., 9., 8.);
+            vec![
+                Cmd::PathEv(Op::B(p(-3., -1.), vec![1., 2.]), p(9., 9.), p(8., 8.), vec![]),
+                Cmd::Ev(Op::L(p(-2., 4.), vec![3., 4.]), (p(7., 7.), vec![-1., -1.]), (p(6., 6.), vec![-2., -2.])),
+                Cmd::PathEv(Op::Q(p(0., 6.), p(1., 1.), vec![5., 6.]), p(9., 9.), p(8., 8.), vec![]),
+                Cmd::Ev(Op::C(p(2., 0.), p(3., 3.), p(4., 1.), vec![7., 8.]), (p(7., 7.), vec![-1., -1.]), (p(6., 6.), vec![-2., -2.])),
+                Cmd::Close,
+                Cmd::Rect(a, b, true, vec![10., 20.]),
+                Cmd::RRect(a, b, [1.0, 2.0, 0.0, 5.0], false, vec![11., 21.]),
+                Cmd::Circle(p(3., -2.), 2.5, true, vec![12., 22.]),
+                Cmd::Ellipse(p(-3., 2.), vector(4.0, 1.5), 0.5, false, vec![13., 23.]),
+                Cmd::Poly(vec![p(0., 0.), p(4., 0.), p(2., 3.)], true, vec![14., 24.]),
+                Cmd::Poly(vec![], true, vec![0., 0.]),
+                Cmd::Pt(p(7., 7.), vec![15., 25.]),
+                Cmd::Seg(p(7., 0.), p(9., 1.), vec![16., 26.]),
+                Cmd::P(Op::B(p(7., 7.), vec![1., 1.])),
+                Cmd::P(Op::C(p(8., 9.), p(10., 9.), p(11., 7.), vec![2., 2.])),
+                Cmd::PathEv(Op::E(false), p(9., 9.), p(8., 8.), vec![5., 5.]),
+            ]
+        }),
+        ("helpers concatenated", 1, {
+            let (a, b) = box_(0., 0., 4., 2.);
+            vec![
+                Cmd::Circle(p(0., 0.), 3.0, false, vec![1.]),
+                Cmd::Cut,
+                Cmd::Rect(a, b, false, vec![2.]),
+                Cmd::Cut,
+                Cmd::P(Op::B(p(1., 1.), vec![3.])),
+                Cmd::P(Op::Q(p(2., 5.), p(3., 1.), vec![4.])),
+                Cmd::Close,
+                Cmd::Cut,
+                Cmd::Cut,
+                Cmd::Seg(p(5., 5.), p(6., 7.), vec![5.]),
+            ]
+        }),
+    ];
+    let maps: Vec<Transform> = vec![
+        Transform::new(0.0, 1.0, -1.0, 0.0, 3.0, -2.0),  // quarter turn + translation
+        Transform::new(1.0, 0.0, 0.5, 1.0, 0.0, 0.0),    // skew
+        Transform::new(-2.0, 0.0, 0.0, 3.0, 1.0, 1.0),   // mirrored non-uniform scale
+        Transform::new(0.6, 0.8, -0.8, 0.6, -1.0, 2.0),  // rotation (3-4-5)
+    ];
+    for (name, n, cmds) in hw {
+        for (mi, m) in maps.iter().enumerate() {
+            for fam in ["bt", "bn", "na", "pb", "ix", "it", "in", "e2e"] {
+                if mi > 0 && matches!(fam, "it" | "e2e") {
+                    continue; // no transform in these
+                }
+                let inp = Input::new(n, 0.05, *m, cmds.clone(), format!("witness {} map{}", name, mi));
+                emit(&mut ctx, fam, Some(inp));
+            }
+        }
     }
     let k = ctx.n(2000, 25000);
     for _ in 0..k {
